@@ -308,13 +308,15 @@ class TrajectoryCalc:
         zero_finding_error = _cZeroFindingAccuracy * 2
         # x = horizontal distance down range, y = drop, z = windage
         while zero_finding_error > _cZeroFindingAccuracy and iterations_count < _cMaxIterations:
-            # Check height of trajectory at the zero distance (using current self.barrel_elevation)
-            t = self._integrate(shot_info, zero_distance, zero_distance, TrajFlag.NONE)[0]
+            # Check height of trajectory at the zero distance (using current self.barrel_elevation):
+            # the row interpolated at zero_distance, not the last integration point, which lies up to one
+            # step beyond it where the sight line of an inclined shot is already at another height
+            t = self._integrate(shot_info, zero_distance, zero_distance, TrajFlag.RANGE)[-1]
             height = t.height >> Distance.Foot
             zero_finding_error = math.fabs(height - height_at_zero)
             if zero_finding_error > _cZeroFindingAccuracy:
-                # Adjust barrel elevation to close height at zero distance
-                self.barrel_elevation -= (height - height_at_zero) / zero_distance
+                # Adjust barrel elevation to close height at zero distance (d(height) = distance * d(tan(elevation)))
+                self.barrel_elevation -= (height - height_at_zero) / zero_distance * math.cos(self.barrel_elevation) ** 2
             else:  # last barrel_elevation hit zero!
                 break
             iterations_count += 1
